@@ -38,6 +38,7 @@
 //@ replace: xcm_attr_map_create xcm_attr_map_add_bool xcm_attr_map_destroy xcm_attr_map_exists
 //@ replace: socket_wait socket_finish msg_bsend bytestream_bsend set_attrs
 //@ props: C05
+//@ flags: --object-bits 11
 //@ expect: postcondition>=1 canary=3
 #include "_unit.h"
 void harness(void)
